@@ -3,10 +3,12 @@
 I : Lean spec inflater  vs Go reference inflater vs compress/flate (valid, faulty, truncated, flipped, dictionary streams)
 W : Lean Writer control model with replayed leaves vs the implementation, lock-step counters/results/destination calls
 R : Lean Reader control model (bufio + step/Read bookkeeping) with a replayed decoder vs the implementation, lock-step
+G : Lean leaf-contract check `checkGen` (proved to imply Sound.gen and the C19 window discipline for the call) applied to
+    recorded match-finder calls: buffer given, tokens appended; at EVERY acceleration level (Go and assembly finders)
 K : Lean checksum / gzip / zlib header and trailer definitions vs hash/crc32, hash/adler32 and fastgo's container bytes
 """
 KINDS = {
-    "C01": ["I", "W"],
+    "C01": ["I", "W", "G"],
     "C02": ["I", "R"],
     "C03": ["I", "R"],
     "C04": ["R"],
@@ -15,15 +17,16 @@ KINDS = {
     "C07": ["K"],
     "C08": ["K"],
     "C09": ["W"],
-    "C10": ["I", "W"],
+    "C10": ["I", "W", "G"],
     "C11": ["R"],
     "C12": ["W"],
     "C13": ["R"],
     "C14": ["W"],
     "C15": ["R"],
     "C16": ["W"],
-    "C18": ["R", "W"],
-    "C19": ["I", "W"],
-    "C20": ["W"],
+    "C18": ["R", "W", "G"],
+    "C19": ["I", "W", "G"],
+    "C20": ["W", "G"],
 }
-COUNT = {"I": (300, 3000), "W": (600, 6000), "R": (400, 4000), "K": (600, 6000)}
+COUNT = {"I": (300, 3000), "W": (600, 6000), "R": (400, 4000), "K": (600, 6000), "G": (600, 6000)}
+PER_LEVEL = {"G"}
